@@ -241,3 +241,35 @@ Example rename_capture_witness :
   /\ captures s_lower [102; 111; 111] [98; 97; 114] false c_t = true
   /\ option_map (print s_lower (fun _ => true)) (rename_tx s_lower [102; 111; 111] [98; 97; 114] c_t) = Some c_out.
 Proof. split; [vm_compute; discriminate|]. split; vm_compute; reflexivity. Qed.
+
+(* parameters are never merged (second hunt, finding C11/2) *)
+Theorem rename_keeps_parameters_stmt : forall (lower : N -> N) (from to : ExSyntax.text) e,
+  (forall c, lower (lower c) = lower c) -> lower 95 = 95 ->
+  distinct_params e = true ->
+  distinct_params (avoid lower from to (target_names lower to) (used_names lower e) e) = true.
+Proof. intros lower from to e H1 H2. exact (rename_full_distinct lower H1 H2 from to e). Qed.
+
+(* its input:  ((Bar, bar) => foo & bar)("1", "2")  with foo renamed to bar gives
+   ((Bar_, bar_) => bar & bar_)("1", "2") : two parameters before, two after *)
+Definition d_inp : ExSyntax.text := [40; 40; 66; 97; 114; 44; 32; 98; 97; 114; 41; 32; 61; 62; 32; 102; 111; 111; 32; 38; 32; 98; 97; 114; 41; 40; 34; 49; 34; 44; 32; 34; 50; 34; 41].
+Definition d_t : expr := Eval vm_compute in tree_or_null (parse_tokens (toks_or_nil (lex d_inp))).
+Definition d_out : ExSyntax.text := [40; 40; 66; 97; 114; 95; 44; 32; 98; 97; 114; 95; 41; 32; 61; 62; 32; 98; 97; 114; 32; 38; 32; 98; 97; 114; 95; 41; 40; 34; 49; 34; 44; 32; 34; 50; 34; 41].
+
+Example rename_case_variant_witness :
+  d_t <> ENull /\ distinct_params d_t = true
+  /\ option_map (print s_lower (fun _ => true)) (rename_tx s_lower [102; 111; 111] [98; 97; 114] d_t) = Some d_out.
+Proof. split; [vm_compute; discriminate|]. split; vm_compute; reflexivity. Qed.
+
+(* what refactor.expression returns without an error is the source itself or text the parser accepts (second hunt,
+   finding C11/1: the printed result of a transformation is read back) *)
+Theorem refactor_output_parses_stmt : forall (lower : N -> N) (printable : N -> bool) (tx : expr -> option expr) src s,
+  refactor_expression lower printable tx src = ROk s ->
+  s = src \/ exists ts t, lex s = LOk ts /\ parse_tokens ts = POk t.
+Proof.
+  intros lower printable tx src s. unfold refactor_expression.
+  destruct (lex src) as [ts0| |]; try discriminate. destruct (parse_tokens ts0) as [e| | |]; try discriminate.
+  destruct (tx e) as [e'|]; [|intros H; inversion H; left; reflexivity].
+  destruct (lex (print lower printable e')) as [ts'| |] eqn:EL; try discriminate.
+  destruct (parse_tokens ts') as [t| | |] eqn:EP; try discriminate.
+  intros H. inversion H; subst. right. exists ts', t. split; assumption.
+Qed.
